@@ -221,4 +221,13 @@ def run(repo, tier):
     res.floor('USERCOL', 5)
     res.floor('FWD', 15)
     res.floor('SPEC', 12)
+    from .common import apply_specs, run_keypair
+    PPM = 'photutils.psf.photometry.'
+    apply_specs(repo, res, [
+        (PPM + 'PSFPhotometry._check_init_units', 'stmt', 'init_params[colname] = values.to(self.data_unit)',
+         'unit-ful init columns are converted to the data unit (their bare values are used afterwards)'),
+        (PPM + 'IterativePSFPhotometry.__call__', 'stmt', "new_tbl['id'] += np.max(phot_tbl['id'])", 'ids of later iterations continue after the largest id'),
+        (PPM + 'IterativePSFPhotometry.__call__', 'stmt', "new_tbl['group_id'] += np.max(phot_tbl['group_id'])", 'group ids continue after the largest group id'),
+    ])
+    run_keypair(repo, res, MODS)
     return res
